@@ -21,6 +21,7 @@
    between the major lines (the two real gateways are compared by the correspondence run). *)
 From Coq Require Import List NArith ZArith Bool String.
 From AMS Require Import Models Codec GatewayFacts GatewayInv GatewaySteps TablesMono GatewaySim GatewayMajor GatewaySimMajor.
+From AMS Require Import GatewayHb.
 Import ListNotations.
 Local Open Scope Z_scope.
 
@@ -102,6 +103,49 @@ Proof.
   destruct E as [ns E]. rewrite E. repeat split; reflexivity.
 Qed.
 Print Assumptions C19_heartbeat_22.
+
+(* the exception covers what the heartbeat does to a REGISTERED node and nothing else: a
+   heartbeat response from a node that is not registered is handled identically under 2.0,
+   2.1 and 2.2 — for every state satisfying the invariant, payload (numeric or not) and
+   fault stream the step has a closed form that does not mention the protocol ... *)
+Theorem C19_heartbeat_unknown_node :
+  forall bat vlt now w faults line m,
+    Inv vlt w -> (2 <= w_proto w)%nat ->
+    decode (proto_of w) line = DecOk m -> m_cmd m = 3 -> m_type m = 22 ->
+    dget Z.eqb (w_nodes w) (m_node m) = None ->
+    recv bat vlt now w faults line =
+      (let r := request_presentation m (EMissingNode (m_node m)) {| s_w := w; s_log := []; s_faults := faults |} in
+       (s_w (snd r), match fst r with inl x => Yield x | inr e => Raise e end, rev (s_log (snd r)))).
+Proof. exact heartbeat_unknown_step. Qed.
+Print Assumptions C19_heartbeat_unknown_node.
+
+(* ... so two gateways under any two 2.x protocols with the same registry and request markers
+   give the same outcome and writes and stay in agreement *)
+Theorem C19_heartbeat_unknown_agree :
+  forall bat vlt now w w' faults line m,
+    Inv vlt w -> Inv vlt w' -> (2 <= w_proto w)%nat -> (2 <= w_proto w')%nat ->
+    decode (proto_of w) line = DecOk m -> decode (proto_of w') line = DecOk m ->
+    m_cmd m = 3 -> m_type m = 22 ->
+    dget Z.eqb (w_nodes w) (m_node m) = None ->
+    w_nodes w = w_nodes w' -> w_internal w = w_internal w' ->
+    let r := recv bat vlt now w faults line in
+    let r' := recv bat vlt now w' faults line in
+    snd (fst r) = snd (fst r') /\ snd r = snd r'
+    /\ w_nodes (fst (fst r)) = w_nodes (fst (fst r')) /\ w_internal (fst (fst r)) = w_internal (fst (fst r'))
+    /\ w_set (fst (fst r)) = w_set w /\ w_set (fst (fst r')) = w_set w'
+    /\ w_proto (fst (fst r)) = w_proto w /\ w_proto (fst (fst r')) = w_proto w'.
+Proof. exact heartbeat_unknown_agree. Qed.
+Print Assumptions C19_heartbeat_unknown_agree.
+
+Example C19_heartbeat_unknown_example :
+  let bat := fun _ : list N => @None Z in
+  let vlt := vlt_full (fun _ _ => None) in
+  let start v := fst (fst (recv bat vlt 0 (init_world true) [] v)) in
+  let r20 := recv bat vlt 0 (start (lit "0;255;3;0;2;2.0")) [] (lit "77;255;3;0;22;abc") in
+  let r22 := recv bat vlt 0 (start (lit "0;255;3;0;2;2.2")) [] (lit "77;255;3;0;22;abc") in
+  snd (fst r20) = Raise (EMissingNode 77) /\ snd (fst r22) = Raise (EMissingNode 77)
+  /\ map we_line (snd r20) = [lit "77;255;3;0;19;" ++ [10%N]] /\ snd r20 = snd r22.
+Proof. vm_compute. repeat split. Qed.
 
 (* ---------- across the major line: the 2.x layers ---------- *)
 
